@@ -431,6 +431,15 @@ def cert_variants(seed):
         variants.append({'critical_options': [crit[2]], 'extensions': [exts[4]]})
         variants.append({'critical_options': [crit[2]], 'extensions': []})
         variants.append({'critical_options': [], 'extensions': [exts[0], exts[6]]})
+        # unknown names next to every known one ("unknown names preserved"): a known name extended, shortened,
+        # upper-cased and vendor-qualified, as an extension and as a critical option
+        for member in sk.SshCertExtensionName:
+            code = member.value.code
+            for name in (code + 'X', code + '-2', code[:-1], code.upper(), code + '@verif.example'):
+                for data in (b'', b'\x00\x00\x00\x01x'):
+                    u = sk.SshCertExtensionUnparsed(name, data)
+                    variants.append({'extensions': [u]})
+                    variants.append({'critical_options': [u]})
     else:
         for c in lists(crit + exts[:2]):
             variants.append({'constraints': c})
